@@ -8,7 +8,11 @@ def split_frontmatter(text: str) -> tuple[str, str]:
     rest of the document. If no frontmatter is found, returns an empty string
     and the original text.
     """
-    lines = text.splitlines()
+    # Only "\n" and "\r\n" end a line here: `str.splitlines()` would also break (and so rewrite)
+    # lines at form feeds, U+2028 and other separators that may occur inside YAML values.
+    lines = text.replace("\r\n", "\n").split("\n")
+    if lines and lines[-1] == "":
+        lines.pop()
 
     # Skip empty lines at the beginning
     start_idx = 0
